@@ -334,7 +334,8 @@ static void vh_init(int argc, char **argv) {
 #define VH_CANARY 64
 #define VH_MAXGB 8
 typedef struct vh_gbuf {
-    uint8_t *map;      /* mmap base */
+    uint8_t *lead;     /* leading PROT_NONE page */
+    uint8_t *map;      /* first usable byte */
     size_t maplen;     /* total mapping */
     size_t cap;        /* usable bytes before the guard (page multiple) */
     uint8_t *guard;    /* start of PROT_NONE */
@@ -347,19 +348,35 @@ static void vh_gb_init(int slot, size_t maxbytes) {
     size_t pg = 4096;
     size_t cap = ((maxbytes + VH_CANARY + pg - 1) / pg + 1) * pg;
     vh_gbuf *g = &vh_gb[slot];
-    g->maplen = cap + VH_GUARD_BYTES;
-    g->map = mmap(NULL, g->maplen, PROT_READ | PROT_WRITE,
-                  MAP_PRIVATE | MAP_ANONYMOUS, -1, 0);
-    if (g->map == MAP_FAILED) {
+    /* layout: [lead guard page PROT_NONE][cap usable bytes][VH_GUARD_BYTES PROT_NONE] */
+    g->maplen = pg + cap + VH_GUARD_BYTES;
+    uint8_t *base = mmap(NULL, g->maplen, PROT_READ | PROT_WRITE, MAP_PRIVATE | MAP_ANONYMOUS, -1, 0);
+    if (base == MAP_FAILED) {
         perror("mmap");
         exit(3);
     }
+    g->lead = base;
+    g->map = base + pg;
     g->cap = cap;
     g->guard = g->map + cap;
-    if (mprotect(g->guard, VH_GUARD_BYTES, PROT_NONE) != 0) {
+    if (mprotect(g->guard, VH_GUARD_BYTES, PROT_NONE) != 0 || mprotect(base, pg, PROT_NONE) != 0) {
         perror("mprotect");
         exit(3);
     }
+}
+/* n bytes starting right after the leading guard page (an access below the buffer faults) */
+static uint8_t *vh_gb_get_lo(int slot, size_t n, int fill) {
+    vh_gbuf *g = &vh_gb[slot];
+    if (n > g->cap) {
+        fprintf(stderr, "vh_gb_get_lo: slot %d too small\n", slot);
+        exit(3);
+    }
+    g->p = g->map;
+    g->n = n;
+    if (fill >= 0) {
+        memset(g->p, fill, n);
+    }
+    return g->p;
 }
 /* carve n bytes ending at the guard; fill with `fill`; set canary before */
 static uint8_t *vh_gb_get(int slot, size_t n, int fill) {
@@ -422,11 +439,10 @@ static void vh_sig(int sig, siginfo_t *si, void *uc) {
                 vh_fault_slot = i;
                 vh_fault_off = (long)(a - vh_gb[i].guard);
             }
-            if (vh_gb[i].map && a < vh_gb[i].map &&
-                a + 4096 > vh_gb[i].map) { /* underrun below mapping */
+            if (vh_gb[i].map && a >= vh_gb[i].lead && a < vh_gb[i].map) { /* underrun into the lead guard */
                 vh_fault_kind = 1;
                 vh_fault_slot = i;
-                vh_fault_off = -(long)(vh_gb[i].p - a);
+                vh_fault_off = -(long)(vh_gb[i].map - a);
             }
         }
     }
